@@ -8,7 +8,7 @@ import os, subprocess
 from vlib import build, caseio, runner
 
 ID = "C09"
-COQ_TARGETS = ["C09_Proofs.vo", "C09_Regress.vo", "C09_Extract.vo"]
+COQ_TARGETS = ["C09_Proofs.vo", "C09_Progress.vo", "C09_Regress.vo", "C09_Extract.vo"]
 EXTRACTED = "C09_model"
 DRIVER = "drv_C09.ml"
 HARNESS = "h_C09.cpp"
@@ -21,7 +21,8 @@ REQUIRED_THEOREMS = ["C09_exit_only_by_teardown_or_condition", "C09_no_step_befo
                      "C09_teardown_one_step", "C09_exited_quiescent", "C09_bounded_exit",
                      "C09_bounded_exit_run_condition_false", "C09_step_generates_reachable",
                      "C09_schedule_words_reachable", "C09_every_word_ends_exited", "C09_monitors_hold",
-                     "C09_teardown_hang_refuted", "C09_relational_semantics_agree", "C09_reboot_store_order_refuted"]
+                     "C09_teardown_hang_refuted", "C09_relational_semantics_agree", "C09_reboot_store_order_refuted",
+                     "C09_reset_reaches_new_epoch", "C09_pending_reset_is_visible"]
 RULE = ("schedule words over {T, F (thread move, run_condition true/false), Run, Reset, Reboot, Teardown, IsRunning, StepNumber, Wait}: "
         "(1) every word up to a length bound over the tokens enabled in the model state reached (disabled tokens, F outside run_condition and "
         "queries dropped: is_running()/step_number() are observed after every token anyway); (2) every word Run.w with w up to a longer bound "
@@ -58,7 +59,7 @@ LEVEL_NOTE = ("What the model cannot exhibit: pre-emption inside libstdc++ (insi
 P2 = "Run T T T T T T T Reset T T T T".split()
 P3 = "Run T T T T T T F T T".split()
 ENUM = {"quick": [("e", 6, 6, 6, []), ("p", 12, 2, 1, ["Run"]), ("s", 9, 2, 1, P2), ("t", 8, 2, 1, P3)],
-        "thorough": [("e", 8, 8, 8, []), ("p", 18, 2, 2, ["Run"]), ("q", 14, 3, 1, ["Run"]), ("s", 12, 3, 1, P2), ("t", 12, 3, 1, P3)]}
+        "thorough": [("e", 8, 8, 8, []), ("p", 18, 2, 2, ["Run"]), ("q", 11, 3, 1, ["Run"]), ("s", 9, 3, 1, P2), ("t", 9, 3, 1, P3)]}
 RANDOM = {"quick": 600, "thorough": 4000}
 STRESS = {"quick": 40, "thorough": 1500}
 ALPHABET = [("T", 50), ("F", 5), ("Run", 10), ("Reset", 8), ("Reboot", 6), ("Teardown", 2), ("IsRunning", 7), ("StepNumber", 7), ("Wait", 5)]
